@@ -1355,7 +1355,7 @@ package plugin
 //@   loop#1 invariant !run_pend
 //@   at call (plugin.GRPCStdio_StreamStdioClient).Recv#1 assert !run_pend   [C11.demux]
 //@   after call (plugin.GRPCStdio_StreamStdioClient).Recv#1 set run_pend := ret1 == nil
-//@   after call (hclog.Logger).Warn("unknown channel, dropping")#1 set run_pend := false
+//@   after call (hclog.Logger).Warn#2 set run_pend := false
 //@   after call io.Copy#1 set run_pend := false
 //@   after call bytes.NewReader#1 bind brd: Ref := ret
 //@   at call bytes.NewReader#1 assert arg0 == cast(sd, "*plugin.StdioData").Data   [C11.demux]
